@@ -266,6 +266,58 @@ Fixpoint run (m : mstate) (ops : list op) : list (mstate * out) :=
 
 Definition final (m : mstate) (ops : list op) : mstate := fold_left (fun s o => fst (step s o)) ops m.
 
+(* ------------------------------------------------------------------ the loops around passivate *)
+
+(* passivationManager.trigger(expected): decide, call passivate (during which other operations may
+   run: [inner]), complete, and go round again while the attempt failed and the entry is still the
+   current, un-paused one.  [script]: what happens during each call of passivate and its result.
+   Returns the number of times passivate was called. *)
+Fixpoint trigger_loop (m : mstate) (id obj : nat) (now : Z) (script : list (list op * bool)) : mstate * nat :=
+  match step m (OTrigBegin id obj now) with
+  | (m1, RDecide (Some _)) =>
+      match script with
+      | [] => (m1, 1%nat)   (* script exhausted: not used by well-formed cases *)
+      | (inner, res) :: rest =>
+          let m2 := final m1 inner in
+          let m3 := fst (step m2 (OTrigEnd id obj res now)) in
+          let again :=
+            match aget id (m_entries m2) with
+            | Some e => Nat.eqb (e_obj e) obj && negb res && negb (e_paused e)
+            | None => false
+            end in
+          if again then let '(m4, k) := trigger_loop m3 id obj now rest in (m4, S k) else (m3, 1%nat)
+      end
+  | (m1, _) => (m1, 0%nat)
+  end.
+
+(* the manager loop takes one message trigger and runs processMessageEntry *)
+Definition process_one (m : mstate) (inner : list op) (res : bool) : mstate * nat :=
+  match step m OProcBegin with
+  | (m1, RDecide (Some (id, obj))) =>
+      let m2 := final m1 inner in
+      (fst (step m2 (OProcEnd id obj res)), 1%nat)
+  | (m1, _) => (m1, 0%nat)
+  end.
+
+(* harness operations: the primitive ones plus the two loops *)
+Inductive hop :=
+| HOp (o : op)
+| HTrigger (id obj : nat) (now : Z) (script : list (list op * bool))
+| HProcess (inner : list op) (res : bool).
+
+Definition hstep (m : mstate) (h : hop) : mstate * (out * nat) :=
+  match h with
+  | HOp o => let '(m', x) := step m o in (m', (x, 0%nat))
+  | HTrigger id obj now script => let '(m', k) := trigger_loop m id obj now script in (m', (RNone, k))
+  | HProcess inner res => let '(m', k) := process_one m inner res in (m', (RNone, k))
+  end.
+
+Fixpoint hrun (m : mstate) (hs : list hop) : list (mstate * (out * nat)) :=
+  match hs with
+  | [] => []
+  | h :: r => let '(m', x) := hstep m h in (m', x) :: hrun m' r
+  end.
+
 (* ------------------------------------------------------------------ tryPassivation (actor/pid.go) *)
 
 Record pflags := mkF {
